@@ -175,6 +175,15 @@ def library(ny: int = 6, nx: int = 8, bands=("r", "g", "b")) -> dict:
     bad = np.stack([gmin, gmax]).copy()
     bad[0, ny - 1, nx - 1] = bad[1, ny - 1, nx - 1] + 1
     lib["grid_minmax"] = write_tif(f"grid_minmax_{tag}", bad)
+    # grids stored in narrow integer types: "min <= max everywhere" must be decided on the values, whatever the
+    # sample type (an unsigned difference wraps, a narrow signed one overflows)
+    umin = ((rr + cc) % 3).astype(np.uint8)
+    lib["grid_u8"] = write_tif(f"grid_u8_{tag}", np.stack([umin, umin + 2]).astype(np.uint8), dtype="uint8")
+    ubad = np.stack([umin, umin + 2]).astype(np.uint8)
+    ubad[0, 1, 1] = ubad[1, 1, 1] + 1
+    lib["grid_u8_minmax"] = write_tif(f"grid_u8_minmax_{tag}", ubad, dtype="uint8")
+    wide = np.stack([np.full((ny, nx), -20000), np.full((ny, nx), 20000)]).astype(np.int16)
+    lib["grid_i16_wide"] = write_tif(f"grid_i16_wide_{tag}", wide, dtype="int16")
     lib["text"] = write_text(f"notes_{tag}.txt")
     lib["missing"] = missing_path()
     return lib
